@@ -33,7 +33,8 @@ let () =
                             | Some (n, _) -> "UNSCOPED:" ^ string_of_int (int_of_n n)
                             | None -> "UNSCOPED:end")
                        | _ -> "?") in
-             print_endline ("OK " ^ hex_of_string (string_of_chars s) ^ " " ^ sc)
+             let rs = if rs_resolved fuel r then "RSOK" else "RSBAD" in
+             print_endline ("OK " ^ hex_of_string (string_of_chars s) ^ " " ^ sc ^ " " ^ rs)
          | Panic s -> print_endline ("PANIC " ^ hex_of_string (string_of_chars s))
          | OutOfFuel -> print_endline "FUEL")
       with Failure m -> print_endline ("READFAIL " ^ m) | Not_found -> print_endline "READFAIL no-tab")
